@@ -237,3 +237,57 @@ func c08CloseErr(cached bool, kind int) string {
 	}
 	return ""
 }
+
+// c08SlowFinal: "Everything recorded before the root's Close is called has been delivered ... before
+// Close returns", with a slow reporter: the first counter delivery of Close's own final pass takes
+// 700 ms (the reporter sleeps: the slowness is part of the input, the verdict is on what was
+// delivered); 64 tagged subscopes over the default number of registry shards plus the root, each with
+// one counter incremented before Close; no periodic pass ever runs (interval 0 or one hour).
+func c08SlowFinal(cached, hour bool) string {
+	log := &Log{}
+	var once int32
+	slow := func(k int) {
+		if (k == 1 || k == 21) && atomic.CompareAndSwapInt32(&once, 0, 1) {
+			time.Sleep(700 * time.Millisecond)
+		}
+	}
+	opts := tally.ScopeOptions{OmitCardinalityMetrics: true}
+	if cached {
+		opts.CachedReporter = &RecCached{L: log, Caps: caps{true, true}, OnCall: slow}
+	} else {
+		opts.Reporter = &RecReporter{L: log, Caps: caps{true, true}, OnCall: slow}
+	}
+	iv := time.Duration(0)
+	if hour {
+		iv = time.Hour
+	}
+	root, closer := tally.NewRootScope(opts, iv)
+	const nsub = 64
+	root.Counter("c0").Inc(1)
+	for i := 1; i <= nsub; i++ {
+		root.Tagged(map[string]string{"k": fmt.Sprint(i)}).Counter(fmt.Sprintf("c%d", i)).Inc(1)
+	}
+	closer.Close()
+	got := map[string]int64{}
+	alloc := map[int64]string{}
+	for _, e := range log.Snapshot() {
+		switch e.K {
+		case 1:
+			got[e.S[0]] += e.I[0]
+		case 11:
+			alloc[e.I[0]] = e.S[0]
+		case 21:
+			got[alloc[e.I[0]]] += e.I[1]
+		}
+	}
+	missing := 0
+	for i := 0; i <= nsub; i++ {
+		if got[fmt.Sprintf("c%d", i)] != 1 {
+			missing++
+		}
+	}
+	if missing > 0 {
+		return fmt.Sprintf("root with %d tagged subscopes (default shard count), one increment on each scope's counter, no periodic pass; Close called with a reporter whose first counter delivery takes 700 ms: when Close returned %d of the %d increments had not been delivered exactly once", nsub, missing, nsub+1)
+	}
+	return ""
+}
